@@ -219,7 +219,7 @@ func (o *ovsdbClient) Connect(ctx context.Context) error {
 		return err
 	}
 	if o.options.leaderOnly {
-		if err := o.watchForLeaderChange(); err != nil {
+		if err := o.watchForLeaderChange(ctx); err != nil {
 			return err
 		}
 	}
@@ -1245,7 +1245,7 @@ func (o *ovsdbClient) Echo(ctx context.Context) error {
 
 // watchForLeaderChange will trigger a reconnect if the connected endpoint
 // ever loses leadership
-func (o *ovsdbClient) watchForLeaderChange() error {
+func (o *ovsdbClient) watchForLeaderChange(ctx context.Context) error {
 	updates := make(chan model.Model)
 	o.databases[serverDB].cache.AddEventHandler(&cache.EventHandlerFuncs{
 		// the contents the monitor starts with, after connecting and after
@@ -1316,7 +1316,7 @@ func (o *ovsdbClient) watchForLeaderChange() error {
 	o.rpcMutex.RLock()
 	db.monitorsMutex.Lock()
 	cookie := newMonitorCookie(serverDB)
-	err := o.monitor(context.Background(), cookie, false, m)
+	err := o.monitor(ctx, cookie, false, m)
 	if err != nil && o.options.reconnect {
 		// the connection was lost while the monitor was being set up: the
 		// client reconnects on its own and must watch its endpoint then,
